@@ -552,7 +552,53 @@ def r7_set_content_and_clone(ctx):
     ctx.floor('failing-clone paths of Message::try_clone', n, 1)
 
 
+def r9_parts_reassembled(ctx):
+    """a message put together from its parts carries exactly those parts (Message::from_raw_parts is what a failed try_cast hands the
+    message back through): header and body are the parameters themselves — not filtered, rebuilt or defaulted"""
+    ctx.set_rule('C16.R9')
+    f = ctx.anchor('des::net::message::Message::from_raw_parts')
+    if not f:
+        return
+    rts = [peel(t) for _, t in ret_trees(f)]
+    ok = bool(rts)
+    for t in rts:
+        if not (t[0] == 'agg' and str(t[1]).endswith('Message::Message') and len(t) > 3):
+            ok = False
+            continue
+        comps = [peel(x) for x in t[2]]
+        ok = ok and len(comps) == 2 and sorted(c[1] for c in comps if c[0] == 'arg') == [1, 2]
+    ctx.check(ok, 'parts-stored-unchanged', 'Message::from_raw_parts stores the header and the body it was given, unchanged', f.where(), [show(t)[:160] for t in rts][:2])
+
+
+def r10_derive_counts_every_field(ctx):
+    """#[derive(MessageBody)] sums byte_len over ALL fields: in the derive's field loops every turn feeds every token stream the loop
+    feeds (no `continue` / condition that leaves a field out of the sum while it is still bound in the pattern)"""
+    ctx.set_rule('C16.R10')
+    P = ctx.P
+    f = P.fns.get('des_macros_core::message_body::derive_impl')
+    if f is None:
+        ctx.violation('anchor:derive_impl', 'unresolved-anchor: des_macros_core::message_body::derive_impl')
+        return
+    ctx.touch(f)
+    ext = [s for s in f.calls() if s.name.split('::')[-1] == 'extend' and 'TokenStream' in s.name and f.loops_containing(s.b)]
+    heads = sorted({innermost_loop(f, s.b) for s in ext})
+    n = 0
+    for h in heads:
+        mine = {s.b for s in ext if innermost_loop(f, s.b) == h}
+        for path, outcome, decs in f.enum_paths(start=h, stop_at={h}):
+            if outcome != 'stop' or not consistent(f, path, decs) or not all(h in f.loops_containing(b) for b in path[1:-1]):
+                continue
+            if len(path) <= 3:
+                continue
+            n += 1
+            ctx.check(mine <= set(path), 'derive-counts-every-field', 'every field of the type contributes to the derived byte_len', f.where_path(path),
+                      {'feeds': len(mine), 'fed on this turn': len(mine & set(path))})
+    ctx.floor('field-loop turns in the MessageBody derive', n, 3)
+
+
 def run(ctx):
+    r9_parts_reassembled(ctx)
+    r10_derive_counts_every_field(ctx)
     # (R8) the declared length is what channels charge for, undiminished: transmission time = length*8/bitrate from the unscaled
     # integers (shared with C07.R7 - a narrowing of the bit count there makes a large declared length cheaper than declared)
     from .C07 import r7_busy_formula
